@@ -29,7 +29,7 @@ def aff_time_all(check):
         try:
             ai, outs = run_step(proj, c, 2)
         except AnalysisError as e:
-            check.undecided("AFF-TIME-ALL", q, "abstract interpretation failed: %s" % e, loc)
+            check.failed("AFF-TIME-ALL", q, e, loc, "abstract interpretation failed")
             continue
         seen = set()
         for o in outs:
@@ -43,6 +43,19 @@ def aff_time_all(check):
                 check.ok("AFF-TIME-ALL", where, "one step(f, dt) leaves f.time = t + 1*min(dt)", loc)
             else:
                 check.violation("AFF-TIME-ALL", where, "one step advances time by %r (expected exactly 1*dt, the minimum of a local time-step array)" % adv, loc, key="advance")
+
+
+def _show_binding(b):
+    if b is None:
+        return "not assigned"
+    if b[0] == "expr" and hasattr(b[1], "expr"):
+        return "`%s`" % unparse(b[1].expr)
+    if b[0] == "expr":
+        try:
+            return "`%s`" % unparse(b[1])
+        except Exception:
+            return "an expression"
+    return repr(b)
 
 
 def field_deepcopy(check):
@@ -102,6 +115,14 @@ def field_deepcopy(check):
         check.violation("FIELD-DEEPCOPY", init.qualname, "not every component of the data list is replaced by a fresh array (self.data = data[:] alone is a shallow copy)", init.loc(), key="nostore")
     else:
         check.ok("FIELD-DEEPCOPY", init.qualname, "every component is stored as a fresh array (%d stores: .copy() / np.repeat)" % fresh, init.loc())
+    # the constructor keeps the time and the iteration tag it is given (every stage copy goes through it)
+    summ = proj.ctor_summary(init.cls)
+    for attr, prm in (("time", "t"), ("it", "it")):
+        got = summ.get(attr)
+        if prm in init.params and got == ("param", prm):
+            check.ok("FIELD-DEEPCOPY", init.qualname, "self.%s is the constructor argument `%s`, unmodified" % (attr, prm), init.loc(), nontrivial=False)
+        else:
+            check.violation("FIELD-DEEPCOPY", init.qualname, "self.%s is not the constructor argument `%s` as given (it is %s): a copy of a field -- every integrator stage works on copies -- does not carry the %s of its source for some values (e.g. a clamp moves negative times to 0: stage evaluations then see 0 + c_i*dt instead of t + c_i*dt)" % (attr, prm, _show_binding(got), "time" if attr == "time" else "iteration tag"), init.loc(), key="ctor-" + attr)
     # copy() and set() construct through __init__ with data, time, it
     for name in ("copy", "set"):
         f = proj.func("field.fdata.%s" % name)
